@@ -1195,3 +1195,29 @@ package nbs
 //@   property C01 C06
 //@   requires index != nil
 //@   ensures  result1 == nil ==> verif_idxCount(result0.idx) == uint32(len(result0.prefixes)) && len(result0.prefixes) < 1<<32
+
+// ---- archive index search (C01): prollyBinSearch is a lower bound, for every sorted slice and every target
+
+// math/bits: Div64 panics unless y != 0 && hi < y (an obligation under nopanic). The 128-bit product and its quotient
+// are abstracted to unknowns bounded by two arithmetic lemmas (hi < either non-zero factor; X <= y ==> X*Y/y <= Y)
+// that lean re-proves on every run (/verif/lemmas/div64.lean); the search is correct for ANY index in [lft, rht).
+
+// prollyBinSearch: never panics, terminates, and returns the lower bound of |target|: everything before the result
+// is smaller, everything from the result on is not (stated for ONE arbitrary position tGI; sortedness is needed
+// relative to that position only)
+//@ func prollyBinSearch
+//@   property C01 C10
+//@   nopanic
+//@   requires 0 <= verif_ghost.tGI && verif_ghost.tGI < len(slice) ==> forall t in 0..len(slice): (t <= verif_ghost.tGI ==> slice[t] <= slice[verif_ghost.tGI]) && (t >= verif_ghost.tGI ==> slice[t] >= slice[verif_ghost.tGI])
+//@   modifies nothing
+//@   ensures  0 <= result && result <= len(slice)
+//@   ensures  0 <= verif_ghost.tGI && verif_ghost.tGI < result ==> slice[verif_ghost.tGI] < target
+//@   ensures  result <= verif_ghost.tGI && verif_ghost.tGI < len(slice) ==> slice[verif_ghost.tGI] >= target
+//@   loop 1
+//@     invariant items == len(slice) && 0 <= lft && lft <= rht && rht <= items && items > 0
+//@     invariant lo < target && target <= hi
+//@     invariant lft < items ==> lo == slice[lft]
+//@     invariant (rht == items && hi == slice[items-1]) || (rht < items && hi == slice[rht])
+//@     invariant 0 <= verif_ghost.tGI && verif_ghost.tGI < lft ==> slice[verif_ghost.tGI] < target
+//@     invariant rht <= verif_ghost.tGI && verif_ghost.tGI < items && rht < items ==> slice[verif_ghost.tGI] >= target
+//@     decreases rht - lft
